@@ -105,6 +105,19 @@ OnCmd ==
             /\ hnd' = FALSE
   /\ UNCHANGED <<cfg, db, buf, wfail>> /\ Next1
 
+(* C07: shutdown handed in while input is continuously available.  The session's select! takes either branch, so any
+   number of the pending requests may still be served -- but not all of them: with several hundred requests pending, a
+   session that only ends once its input is exhausted is not honouring shutdown, it is starving it. *)
+OnCmdRace ==
+  /\ Is("cmd") /\ Ev.kind = "shutdown_race" /\ st = "run" /\ hnd /\ exp # <<>>
+  /\ st' = "racing"
+  /\ UNCHANGED <<cfg, db, buf, exp, wfail, hnd>> /\ Next1
+OnEndRace ==
+  /\ Is("end") /\ st = "racing" /\ Ev.reason = "Shutdown"
+  /\ exp # <<>> /\ Head(exp).e # "tx"            \* at a request boundary, with requests still pending
+  /\ exp' = <<>> /\ st' = "ended"
+  /\ UNCHANGED <<cfg, db, buf, wfail, hnd>> /\ Next1
+
 (* peer closes / the transport fails while the session waits for bytes *)
 OnEof ==
   /\ (Is("eof") \/ Is("rerr")) /\ exp = <<>>
@@ -133,7 +146,7 @@ OnQuiet ==
   /\ Is("q") /\ exp = <<>> /\ st \in {"run", "ended"}
   /\ UNCHANGED <<cfg, db, buf, exp, st, wfail, hnd>> /\ Next1
 
-TraceNext == OnCfg \/ OnRx \/ OnTx \/ OnAuth \/ OnReads \/ OnWrite \/ OnEnd \/ OnCmd
+TraceNext == OnCmdRace \/ OnEndRace \/ OnCfg \/ OnRx \/ OnTx \/ OnAuth \/ OnReads \/ OnWrite \/ OnEnd \/ OnCmd
              \/ OnEof \/ OnWerr \/ OnReopen \/ OnQuiet
 
 TraceSpec == TraceInit /\ [][TraceNext]_vars
